@@ -156,6 +156,7 @@ func NewWorld(cfg Cfg, r Src, byz []int, watchFlag map[int]bool, mons []*Mon, ke
 		n.Chain = map[uint32]*vt.Block{}
 		n.Pool = map[vt.H]vt.Tx{}
 		n.Seen = map[uint32][]Payload{}
+		n.Direct = map[uint32][]Payload{}
 		n.Own = map[uint32][]Payload{}
 		n.Accepted = map[uint32][]*vt.Block{}
 		n.PreAccepted = map[uint32]int{}
@@ -271,6 +272,9 @@ func (w *World) Restart(n *Node) {
 	n.Faulty = true
 	n.Restarts++
 	n.Subscribed = false
+	delete(n.PreAccepted, n.Tip+1)
+	n.Seen = map[uint32][]Payload{}
+	n.Direct = map[uint32][]Payload{}
 	n.newDBFT()
 	for _, m := range w.Mons {
 		if m.Restarted != nil {
